@@ -1074,6 +1074,17 @@ def rule_token_order_preserved(ctx, facts, rule):
                 root = g.j.get("root", g.path)
                 if not (root.endswith("GlobalCollect::submit_spans") and t["callee"].endswith("::retain")):
                     bad.append((g.path, g.loc(b), t["callee"].rsplit("::", 1)[1]))
+    # ... and the two functions that derive a token from a token hand the items on one for one, in order: no selecting / reordering
+    # iterator adaptor between the source token and what they return
+    SEL = re.compile(r"Iterator>?::(take|take_while|nth|last|find|find_map|skip|skip_while|step_by|filter|filter_map|max\w*|min\w*|position|rposition|rev|chain|zip|"
+                     r"partition|cycle|flat_map|flatten|scan|fuse|peekable|next_back)$")
+    for anchor in ("fastrace::span::SpanInner::issue_collect_token", "fastrace::local::local_span_line::SpanLine::current_collect_token"):
+        g0 = facts.fn(anchor)
+        if g0 is None:
+            continue
+        for g in [g0] + list(facts.closures_of(g0)):
+            for b in g.calls_re(SEL.pattern, cleanup=False):
+                bad.append((g.path, g.loc(b), g.term(b)["callee"].rsplit("::", 1)[1]))
     ctx.check(not bad and n >= 1, rule, "fastrace::util::CollectToken", "-",
               "token items are never filtered or reordered between the program's parent list and the submit choke point "
               "(the first item stays the first parent)", "%d mutating site(s): submit_spans' retain" % n,
